@@ -90,7 +90,7 @@ pub fn dispatch(id: &str, tier: Tier, replay: Option<&str>) -> i32 {
         "C01" => c01::run(tier),
         "C02" => {
             let rep = Report::new("C02", tier);
-            rep.set_rule("(a) every weight matrix for <= 3 candidates x <= 3 tracks over a grid straddling the threshold (quick: 4 values for 3x3, 7 below; thorough: 7 values), thresholds 0.3 and 1.0, declared sizes exact and larger, every arrival order for <= 2x2 (three orders above), plus permutation-matrix and greedy-trap families up to 8x8: SortVoting::winners judged against an exact bitmask-DP optimum in the implementation's micro-units. (b) every relative-motion word of length 5 (6 thorough) over {approach, stay, separate} for two objects that approach, cross and separate (+ a small static object / a rotated third one), on Sort / VisualSort / BatchSort x IoU / Mahalanobis x shards: before every call the live tracks (last estimate, Kalman state) are read from the store, gate and weight of every pair re-derived in f64 (own clipper, own Mahalanobis), the optimum found by brute force, and the tracker's association must attain it and never use an ungated / expired pair; asserted outside a 1e-3 margin.");
+            rep.set_rule("(a) every weight matrix for <= 3 candidates x <= 3 tracks over a grid straddling the threshold (quick: 4 values for 3x3, 7 below; thorough: 7 values), thresholds 0.3 and 1.0, declared sizes exact and larger, every arrival order for <= 2x2 (three orders above), plus permutation-matrix and greedy-trap families up to 8x8: SortVoting::winners judged against an exact bitmask-DP optimum in the implementation's micro-units. (b) every relative-motion word of length 5 (6 thorough) over {approach, stay, separate} for two objects that approach, cross and separate (+ a small static object / a rotated third one), on Sort / VisualSort / BatchSort x IoU / Mahalanobis (default, wide (1/2, 1/10) and small (1/80, 1/640) Kalman weights; a small-hop family decided by the narrow gate of the small weights) x shards: before every call the live tracks (last estimate, Kalman state) are read from the store, gate and weight of every pair re-derived in f64 (own clipper, own Mahalanobis), the optimum found by brute force, and the tracker's association must attain it and never use an ungated / expired pair; asserted outside a 1e-3 margin.");
             c02::run_a(&rep, tier);
             c02::run_b(&rep, tier);
             rep
